@@ -51,6 +51,7 @@ def run(tier: str, seed: int, rep: Report, model: Model) -> dict:
     cfgs = list(itertools.product(dis, DEBUG, LEVELS))
     rep.rule = ("all combinations of DLTYPE_DISABLE x DLTYPE_DEBUG_MODE x logging level, each in a fresh interpreter, x enabled in {default, True, False} "
                 "x {dltyped, dltyped_dataclass, dltyped_namedtuple} x 8 calls; exhaustive over the listed values; non-trivial = not the all-default configuration")
+    rep.rule += '; plus, under every combination, decorations naming a scope provider (self on a function / on a method, a provider object, a non-provider) and calls with an optional None and a tuple parameter'
     rep.exhaustive = True
     with ThreadPoolExecutor(max_workers=12) as ex:
         results = list(ex.map(probe, cfgs))
